@@ -242,7 +242,8 @@ class Verifier(ExprMixin, CallMixin, StmtMixin, BuiltinsMixin, EngineBase):
         return smt.NONE
 
     def clause_holds(self, clause: FuncInfo, env: Dict[str, Any]):
-        return self.truthy(self.call_clause(clause, env))
+        """the clause as ONE formula (all its sub-paths merged), so contracts do not fork the caller"""
+        return self.merged_truth(lambda: self.truthy(self.call_clause(clause, env)), clause.qualname)
 
     def apply_contract(self, ct: Contract, fi: FuncInfo, args, kwargs, star, dstar, node=None):
         env = self.bind_for_contract(fi, args, kwargs, star, dstar, node)
@@ -308,7 +309,7 @@ class Verifier(ExprMixin, CallMixin, StmtMixin, BuiltinsMixin, EngineBase):
         for a in sorted(self.declared_attrs(K)):
             v = self.fresh(f'h_{a}')
             self.bound_ref(v)
-            self._add_pc(v != smt.ABSENT)
+            self._add_axiom(v != smt.ABSENT)
             self.set_attr_raw(o, a, v)
         if K.is_subclass(builtin_class('BaseException')) and 'args' not in self.declared_attrs(K):
             t = self.alloc(builtin_class('tuple'))
@@ -346,7 +347,7 @@ class Verifier(ExprMixin, CallMixin, StmtMixin, BuiltinsMixin, EngineBase):
                 v = self.get_attr(v, a)
             nv = self.fresh(f'hv_{path[-1]}')
             self.bound_ref(nv)
-            self._add_pc(nv != smt.ABSENT)
+            self._add_axiom(nv != smt.ABSENT)
             self.set_attr_raw(v, path[-1], nv)
             return
         for a in path:
@@ -357,7 +358,7 @@ class Verifier(ExprMixin, CallMixin, StmtMixin, BuiltinsMixin, EngineBase):
         else:
             self.st.dct = z3.Store(self.st.dct, r, self.fresh('hv_dict', smt.DictV))
             n = self.fresh('hv_dlen', smt.I)
-            self._add_pc(n >= 0)
+            self._add_axiom(n >= 0)
             self.st.dlen = z3.Store(self.st.dlen, r, n)
 
     # ==================================================================================== top level
